@@ -77,10 +77,10 @@ def _pool():
 
 POOL = _pool()
 RULE = RULE_T % len(POOL)
-SIZES2 = [[16, 16], [9, 15], [24, 8]]
-SIZES1 = [[32], [21], [12]]
+SIZES2 = [[16, 16], [9, 15], [24, 8], [64, 72]]        # the last entry is used by the thread-stress operation only
+SIZES1 = [[32], [21], [12], [4096]]
 INPUTS = [{'kind': 'gaussian', 'seed': 11, 'scale': 0}, {'kind': 'wide', 'seed': 12, 'scale': 0},
-          {'kind': 'sparse', 'seed': 13, 'scale': 0}]
+          {'kind': 'sparse', 'seed': 13, 'scale': 0}, {'kind': 'gaussian', 'seed': 14, 'scale': 0}]
 TABLES = ['near_sym_a', 'qshift_a', 'near_sym_b_bp', 'qshift_b_bp', 'antonini', 'qshift_32']
 
 
@@ -95,10 +95,10 @@ def cfg_with_input(ci, ii):
         L = dwtu.flen(cfg['wave'])
         size = [max(n, L + 1) for n in size]
         # reflect padding needs pad < size at every level; J belongs to the module, so it must suit all three inputs
-        allsz = [[max(n, L + 1) for n in sz] for sz in (SIZES1 if one_d else SIZES2)]
+        allsz = [[max(n, L + 1) for n in sz] for sz in (SIZES1 if one_d else SIZES2)[:3]]
         cfg['J'] = max(1, min(xf._safe_reflect(sz, L, cfg['J']) for sz in allsz))
     cfg['size'] = size
-    N, C = [(2, 3), (1, 3), (3, 3)][ii] if xf.needs_three_channels(cfg) else [(2, 2), (1, 3), (3, 1)][ii]
+    N, C = [(2, 3), (1, 3), (3, 3), (2, 3)][ii] if xf.needs_three_channels(cfg) else [(2, 2), (1, 3), (3, 1), (2, 3)][ii]
     return cfg, N, C, INPUTS[ii]
 
 
@@ -111,12 +111,12 @@ def plan(tier):
             # a configuration and its twin (the next pool entry), on the same input shapes
             c1 = (2 * u + seed_rot) % len(POOL)
             c2 = (c1 + 1) % len(POOL)
-            own = [(c1, u % 3), (c1, (u + 1) % 3), (c2, u % 3), (c2, (u + 1) % 3)]
+            own = [(c1, u % 3), (c1, (u + 1) % 3), (c2, u % 3), (c2, (u + 1) % 3), (c1, 3)]
             units.append({'n': 8, 'own': own})
         else:
             c1 = u % len(POOL)
             c2, c3 = (c1 + 1) % len(POOL), (u * 7 + 3) % len(POOL)
-            own = [(c1, i) for i in range(3)] + [(c2, i) for i in range(3)] + [(c3, u % 3)]
+            own = [(c1, i) for i in range(3)] + [(c2, i) for i in range(3)] + [(c3, u % 3), (c1, 3)]
             units.append({'n': 40, 'own': own})
     return units
 
@@ -132,12 +132,13 @@ def _case(draw, unit):
         st.tuples(st.just('call'), st.integers(0, 15), st.integers(0, n - 1),
                   st.sampled_from(['no_grad', 'requires_grad', 'backward'])),
         st.tuples(st.just('threads'), st.integers(2, 8), st.integers(0, 10**6)),
+        st.tuples(st.just('thread_stress'), st.integers(3, 6), st.sampled_from(['no_grad', 'backward'])),
         st.tuples(st.just('load'), st.sampled_from(TABLES)),
         st.tuples(st.just('roundtrip'), st.integers(0, 15)),
         st.tuples(st.just('other_dtype'), st.integers(0, n - 1)),
         st.tuples(st.just('wrong_dtype_call'), st.integers(0, 15)),
         st.tuples(st.just('drop'), st.integers(0, 15)))
-    first = [('construct', 0, 'f32'), ('construct', n - 1, 'f32')]
+    first = [('construct', 0, 'f32'), ('construct', 2, 'f32')]
     ops = first + draw(st.lists(op, min_size=4, max_size=38))
     return {'own': [list(o) for o in own], 'ops': [list(o) for o in ops]}
 
@@ -183,10 +184,18 @@ def goldens(jobs):
                     _GOLD[key] = ('error', err)
                 else:
                     with np.load(path) as z:
-                        _GOLD[key] = ('ok', [z['arr_%d' % i] for i in range(len(z.files))])
+                        arrs = [z['arr_%d' % i] for i in range(len(z.files) - 1)]
+                        n_out = int(z['n_out'])
+                        _GOLD[key] = ('ok', (arrs[:n_out], arrs[n_out:]))
             finally:
                 os.unlink(path)
     return [_GOLD[json.dumps(job, sort_keys=True)] for job in jobs]
+
+
+def cotangent(o):
+    """A fixed, dense, sign-changing cotangent of the shape of o (the same in the golden interpreter and here)."""
+    n = o.numel()
+    return torch.cos(0.37 * torch.arange(n, dtype=torch.float64) + 0.5).reshape(o.shape).to(o.dtype)
 
 
 def _same(outs, gold, r, what):
@@ -243,11 +252,15 @@ def run_case(case):
     def one_call(inst, oi, mode, what):
         """Call instance `inst` (built for the configuration of own[inst.oi]) on the input of own[oi] if the two
         share the configuration index, else on its own input."""
-        cands = [o for o in own if o[0] == inst.cfg_key]
-        ci, ii = cands[oi % len(cands)]
+        cands = [o for o in own if o[0] == inst.cfg_key and (o[1] == 3) == (oi == 'stress')] or \
+            [o for o in own if o[0] == inst.cfg_key]
+        ci, ii = cands[(0 if oi == 'stress' else oi) % len(cands)]
         cfg, N, C, rx = cfg_with_input(ci, ii)
         job = _job(ci, ii, inst.dtype, 'roundtrip' if inst.converted else None)
         (st_, gold), = goldens([job])
+        gold_grads = None
+        if st_ == 'ok':
+            gold, gold_grads = gold
         if st_ != 'ok':
             # the same call as the very first call of a fresh interpreter failed
             r.fail('fresh_interpreter_call_failed', '%s: the golden run (first call in a fresh interpreter) failed: %s' %
@@ -270,10 +283,14 @@ def run_case(case):
         if mode == 'backward':
             diff = [t for t in outs if t.requires_grad]
             if diff:
-                ok, e = lib(lambda: torch.autograd.backward([t.sum() for t in diff]))
+                ok, gs = lib(torch.autograd.grad, diff, ins, [cotangent(t) for t in diff], allow_unused=True)
                 if not ok:
-                    r.fail(e.bucket, '%s: backward raised: %s' % (what, e))
+                    r.fail(gs.bucket, '%s: backward raised: %s' % (what, gs))
                     return False
+                if gold_grads:
+                    gts = [torch.zeros(0, dtype=ins[0].dtype) if g_ is None else g_ for g_ in gs]
+                    if not _same(gts, gold_grads, r, what + ' [gradients]'):
+                        return False
         for t, s in zip(ins, snaps):
             if t.shape != s.shape or not torch.equal(t.detach(), s):
                 r.fail('argument_mutated', '%s modified one of its argument tensors' % what)
@@ -301,7 +318,7 @@ def run_case(case):
         return True
 
     # all goldens this history can need, each from its own fresh interpreter, started in parallel
-    goldens([_job(ci, ii, dt) for ci, ii in own for dt in ('f32', 'f64')])
+    goldens([_job(ci, ii, dt) for ci, ii in own if ii != 3 for dt in ('f32', 'f64')])
     for step, op in enumerate(case['ops']):
         kind = op[0]
         what = 'step %d %s' % (step, op)
@@ -322,7 +339,7 @@ def run_case(case):
                     for _ in range(op[1])]
             # make sure the goldens exist before the threads start
             for inst, oi, _ in jobs:
-                cands = [o for o in own if o[0] == inst.cfg_key]
+                cands = [o for o in own if o[0] == inst.cfg_key and o[1] != 3] or [o for o in own if o[0] == inst.cfg_key]
                 ci, ii = cands[oi % len(cands)]
                 goldens([_job(ci, ii, inst.dtype, 'roundtrip' if inst.converted else None)])
             r.label('threads')
@@ -330,6 +347,25 @@ def run_case(case):
                 res = list(ex.map(lambda j: one_call(j[0], j[1], j[2], what + ' (thread)'), jobs))
             if not all(res):
                 return r
+        elif kind == 'thread_stress' and insts:
+            # several threads hammer instances of the configuration that owns the large input: separate instances,
+            # separate argument tensors, same shapes - anything shared inside the library shows up as a wrong result
+            big = [o for o in own if o[1] == 3]
+            if big:
+                ci_big = big[0][0]
+                pool_ = [i_ for i_ in insts if i_.cfg_key == ci_big and not i_.converted]
+                while len(pool_) < op[1]:
+                    ok, ni = lib(build, own.index(big[0]), 'f32')
+                    if not ok:
+                        return r.fail(ni.bucket, 'construction raised: %s' % ni)
+                    pool_.append(ni)
+                goldens([_job(ci_big, 3, 'f32'), _job(ci_big, 3, 'f64')])
+                r.label('thread_stress')
+                with ThreadPoolExecutor(op[1]) as ex:
+                    res = list(ex.map(lambda i_: all(one_call(i_, 'stress', op[2], what + ' (stress thread)') for _ in range(5)),
+                                      pool_[:op[1]]))
+                if not all(res):
+                    return r
         elif kind == 'load':
             import pytorch_wavelets.dtcwt.coeffs as pc
             ok, e = lib(pc.qshift if op[1].startswith('qshift') else pc.biort, op[1])
